@@ -124,3 +124,305 @@ Example C14_example_pacing :
   = [OutAdd true; OutPublish true; OutRead (RFdt 1 false); OutRead (RObj 1 false); OutRead RNothing;
      OutRead RNothing; OutRead (RObj 1 true)].
 Proof. vm_compute. reflexivity. Qed.
+
+(* ===== block: C14Prompt ===== *)
+(* Promptness: "each due packet goes out at the first poll at or after its due time when nothing of
+   higher priority is pending; degenerate inputs - an empty object, a deadline in the past, a zero
+   delay - neither crash nor stall the sender".  Proofs in Proofs/C14Prompt.v.
+   Vocabulary: [queue_ready], [ready_in_slot], [should_transfer_now], [tick_due]/[paced] are the
+   model's own eligibility and pacing tests (the ones C13_strict_priority and C14_eligible_* use).
+   Premises of the history statements: [reach_ok] (C12Quiesce: ascending queue keys, fdt_duration > 0
+   and an FDT carousel with a non-negative delay = D42 excluded, adds under TOIs that are neither
+   live nor 0, non-negative carousel delays), [divf_total] (Duration::div_f64 defined for a divisor
+   >= 1), and for the zero-tick statements [divf_zero] (div_f64 of a zero duration is not positive)
+   and reads that never go back in time. *)
+From FluteV Require Import Proofs.C13Full Proofs.C12Quiesce Proofs.C14Prompt.
+From Coq Require Import Sorted.
+
+(* (P1) one read.  Some queue is ready: the read returns a packet (never "nothing", never a panic,
+   never the fuel guard); if it is an object packet the object belongs to a queue of that key or a
+   smaller one, and no queue of a smaller key than the object's was ready. *)
+Theorem C14_prompt_read : forall fdt_npk fdt_ok divf full dur car sid queues ops now q o s',
+  reach_ok fdt_npk fdt_ok divf full dur car sid queues ops -> divf_total divf ->
+  let s := snd (run_ops fdt_npk fdt_ok divf (init_st full dur car sid queues) ops) in
+  In q (squeues s) -> queue_ready s now q = true -> sender_read fdt_npk fdt_ok divf now s = (o, s') ->
+  is_pkt o = true
+  /\ forall toi c, o = RObj toi c ->
+       exists p, prio_of_toi s toi = Some p /\ p <= q_prio q
+                 /\ forall q', In q' (squeues s) -> q_prio q' < p -> queue_ready s now q' = false.
+Proof. exact hist_prompt_read. Qed.
+Print Assumptions C14_prompt_read.
+
+(* (P2) the same with no FDT instance pending (the run of the FDT session at this instant is silent)
+   in FullFDT mode: the packet is the packet [out_of s id c] (= RObj toi c for a file object) of an
+   object that holds a slot or waits for one, of the priority of the ready queue or higher, and no
+   queue of a smaller key than that object's was ready. *)
+Theorem C14_prompt_read_object : forall fdt_npk fdt_ok divf full dur car sid queues ops now q o s' s1,
+  reach_ok fdt_npk fdt_ok divf full dur car sid queues ops -> divf_total divf ->
+  let s := snd (run_ops fdt_npk fdt_ok divf (init_st full dur car sid queues) ops) in
+  In q (squeues s) -> queue_ready s now q = true ->
+  run_fdt_session fdt_npk fdt_ok divf now s = (RNothing, s1) -> full_fdt s = true ->
+  sender_read fdt_npk fdt_ok divf now s = (o, s') ->
+  exists id c, In id (live (all_sessions (squeues s)) s) /\ o = out_of s id c
+    /\ o_prio (f_o (obj s id)) <= q_prio q
+    /\ forall q', In q' (squeues s) -> q_prio q' < o_prio (f_o (obj s id)) -> queue_ready s now q' = false.
+Proof. exact hist_prompt_read_object. Qed.
+Print Assumptions C14_prompt_read_object.
+
+(* (P3) a silent read, read backwards: no queue was ready; an object in a slot with a packet left is
+   paced into the future; an object that waits and may start waits behind objects paced into the
+   future that hold every slot of its queue; afterwards no FDT instance is queued and every object
+   still in a slot is paced into the future. *)
+Theorem C14_silent_read : forall fdt_npk fdt_ok divf full dur car sid queues ops now s',
+  reach_ok fdt_npk fdt_ok divf full dur car sid queues ops ->
+  let s := snd (run_ops fdt_npk fdt_ok divf (init_st full dur car sid queues) ops) in
+  sender_read fdt_npk fdt_ok divf now s = (RNothing, s') ->
+  (forall q, In q (squeues s) -> queue_ready s now q = false)
+  /\ (forall q ss id e, In q (squeues s) -> In ss (q_sessions q) -> ss_file ss = Some id -> ss_enc ss = Some e ->
+        enc_has_packet e = true -> paced now s id = true)
+  /\ (forall q id, In q (squeues s) -> In id (queue s) ->
+        should_transfer_now (obj s id) (q_prio q) (full_fdt s) now = true ->
+        forall ss, In ss (q_sessions q) ->
+          exists id' e, ss_file ss = Some id' /\ ss_enc ss = Some e /\ paced now s id' = true)
+  /\ fdtq s' = []
+  /\ (forall ss id, In ss (all_sessions (squeues s')) -> ss_file ss = Some id -> paced now s' id = true).
+Proof. exact hist_silent_read. Qed.
+Print Assumptions C14_silent_read.
+
+(* (P4) the bound.  A slot (position k of the list of all slots) holds an object with a packet that
+   is due: every read at that instant returns a packet and after fewer than [MUs now s] reads (the
+   packets the sender still owes at that instant: C12 quiescence potential) the read returns the
+   packet of that object. *)
+Theorem C14_due_packet_goes_out : forall fdt_npk fdt_ok divf full dur car sid queues ops now k id e,
+  reach_ok fdt_npk fdt_ok divf full dur car sid queues ops -> divf_total divf ->
+  let s := snd (run_ops fdt_npk fdt_ok divf (init_st full dur car sid queues) ops) in
+  DueAt now k id e (all_sessions (squeues s)) s ->
+  exists n c, (n < MUs fdt_npk now s)%nat
+    /\ Forall (fun o => is_pkt o = true) (fst (read_n fdt_npk fdt_ok divf now n s))
+    /\ fst (sender_read fdt_npk fdt_ok divf now (snd (read_n fdt_npk fdt_ok divf now n s))) = out_of s id c.
+Proof. exact hist_due_packet_goes_out. Qed.
+Print Assumptions C14_due_packet_goes_out.
+
+(* (P5) round robin inside one queue (any state that satisfies the ownership invariant INV, the
+   queue's slots at positions |Lpre|.. of the slot list): the read of the queue returns a packet;
+   it is the due packet of slot j or the round-robin index has moved closer to j, and the distance
+   is smaller than the number of slots: at most (slots) reads of the queue. *)
+Theorem C14_round_robin : forall fdt_npk fdt_ok divf now Lpre Lpost fs q t o q' t' j id e,
+  wfq q -> INV (Lpre ++ q_sessions q ++ Lpost) fs t ->
+  read_priority_queue fdt_npk fdt_ok divf q now t = (o, q', t') -> fdtq t' = [] ->
+  (j < length (q_sessions q))%nat ->
+  DueAt now (length Lpre + j) id e (Lpre ++ q_sessions q ++ Lpost) t ->
+  o <> RNothing
+  /\ ((exists c, o = out_of t id c)
+      \/ (DueAt now (length Lpre + j) id e (Lpre ++ q_sessions q' ++ Lpost) t'
+          /\ (rr_dist (q_index q') j (length (q_sessions q)) < rr_dist (q_index q) j (length (q_sessions q)))%nat))
+  /\ (rr_dist (q_index q) j (length (q_sessions q)) < length (q_sessions q))%nat.
+Proof. exact rr_fairness. Qed.
+Print Assumptions C14_round_robin.
+
+(* (P6) degenerate inputs never stall.  After a silent read no slot holds an object that is never
+   paced: no target / as fast as possible ([unpaced_target]), or a transfer whose tick is zero
+   ([zero_started]: target duration 0, or a deadline not after the start of the transfer). *)
+Theorem C14_silent_no_unpaced_held : forall fdt_npk fdt_ok divf full dur car sid queues ops now s',
+  reach_ok fdt_npk fdt_ok divf full dur car sid queues ops -> divf_zero divf ->
+  reads_monotone (ops ++ [OpRead now]) ->
+  let s := snd (run_ops fdt_npk fdt_ok divf (init_st full dur car sid queues) ops) in
+  sender_read fdt_npk fdt_ok divf now s = (RNothing, s') ->
+  forall ss id, In ss (all_sessions (squeues s')) -> ss_file ss = Some id ->
+    ~ unpaced_target (f_o (obj s' id)) /\ ~ zero_started s' id.
+Proof. exact hist_silent_no_unpaced_held. Qed.
+Print Assumptions C14_silent_no_unpaced_held.
+
+(* (P7) ... and they go through at one instant.  A never-paced object in a slot: the reads at this
+   instant return packets (at most MUs), then nothing, and by then a whole transfer of the object
+   has ended (total_nb_transfer has gone up: every packet of the transfer was sent, the object has
+   left its slot - re-queued for a carousel, dropped when expired). *)
+Theorem C14_unpaced_held_completes : forall fdt_npk fdt_ok divf full dur car sid queues ops now ss id,
+  reach_ok fdt_npk fdt_ok divf full dur car sid queues ops -> divf_total divf -> divf_zero divf ->
+  reads_monotone (ops ++ [OpRead now]) ->
+  let s := snd (run_ops fdt_npk fdt_ok divf (init_st full dur car sid queues) ops) in
+  In ss (all_sessions (squeues s)) -> ss_file ss = Some id ->
+  unpaced_target (f_o (obj s id)) \/ zero_started s id ->
+  exists n s1, (n <= MUs fdt_npk now s)%nat
+    /\ Forall (fun o => is_pkt o = true) (fst (read_n fdt_npk fdt_ok divf now n s))
+    /\ sender_read fdt_npk fdt_ok divf now (snd (read_n fdt_npk fdt_ok divf now n s)) = (RNothing, s1)
+    /\ t_total (f_t (obj s id)) < t_total (f_t (obj s1 id)).
+Proof. exact hist_unpaced_held_completes. Qed.
+Print Assumptions C14_unpaced_held_completes.
+
+(* (P8) the same for an object that waits and may start now (eligibility does not look at the size
+   nor at the target: C14_eligibility_ignores_payload): empty content, deadline not after now,
+   target duration 0, no target.  Either a whole transfer has ended, or it still waits, may still
+   start, and every slot of its queue is held by an object that is paced into the future. *)
+Theorem C14_unpaced_waiting_completes : forall fdt_npk fdt_ok divf full dur car sid queues ops now q id,
+  reach_ok fdt_npk fdt_ok divf full dur car sid queues ops -> divf_total divf -> divf_zero divf ->
+  reads_monotone (ops ++ [OpRead now]) ->
+  let s := snd (run_ops fdt_npk fdt_ok divf (init_st full dur car sid queues) ops) in
+  In q (squeues s) -> In id (queue s) ->
+  should_transfer_now (obj s id) (q_prio q) (full_fdt s) now = true ->
+  unpaced_target (f_o (obj s id)) \/ zero_at now (f_o (obj s id)) ->
+  exists n s1, (n <= MUs fdt_npk now s)%nat
+    /\ Forall (fun o => is_pkt o = true) (fst (read_n fdt_npk fdt_ok divf now n s))
+    /\ sender_read fdt_npk fdt_ok divf now (snd (read_n fdt_npk fdt_ok divf now n s)) = (RNothing, s1)
+    /\ (t_total (f_t (obj s id)) < t_total (f_t (obj s1 id))
+        \/ (In id (queue s1)
+            /\ should_transfer_now (obj s1 id) (q_prio q) (full_fdt s1) now = true
+            /\ forall q1 ss, In q1 (squeues s1) -> q_prio q1 = q_prio q -> In ss (q_sessions q1) ->
+                 exists id' e, ss_file ss = Some id' /\ ss_enc ss = Some e /\ paced now s1 id' = true)).
+Proof. exact hist_unpaced_waiting_completes. Qed.
+Print Assumptions C14_unpaced_waiting_completes.
+
+Theorem C14_eligibility_ignores_payload : forall o o' pub t prio full now,
+  o_prio o' = o_prio o -> o_max o' = o_max o -> o_car o' = o_car o ->
+  should_transfer_now (mk_fdesc o' pub t) prio full now = should_transfer_now (mk_fdesc o pub t) prio full now.
+Proof. exact stn_payload_indep. Qed.
+Print Assumptions C14_eligibility_ignores_payload.
+
+(* a zero carousel delay: the next transfer may start at any instant strictly after the end of the
+   previous one *)
+Theorem C14_zero_delay_eligible : forall f prio full now le ls,
+  o_prio (f_o f) = prio -> (full = true -> f_pub f = true) ->
+  match t_start_time (f_t f) with Some stt => (stt <= now)%Z | None => True end ->
+  t_transferring (f_t f) = false ->
+  o_car (f_o f) = CDelay 0 -> t_last_end (f_t f) = Some le -> t_last_start (f_t f) = Some ls ->
+  o_max (f_o f) <= t_count (f_t f) ->
+  should_transfer_now f prio full now = (le <? now)%Z.
+Proof. exact zero_delay_eligible. Qed.
+Print Assumptions C14_zero_delay_eligible.
+
+(* the state-level forms: on every state that satisfies [PInv] = QInv (C12) + "the FDT session holds
+   an encoder only together with its instance"; [PInv] holds initially and is kept by every operation *)
+Theorem C14_prompt_read_state : forall fdt_npk fdt_ok divf now s q o s',
+  PInv s -> divf_total divf -> In q (squeues s) -> queue_ready s now q = true ->
+  sender_read fdt_npk fdt_ok divf now s = (o, s') ->
+  is_pkt o = true
+  /\ forall toi c, o = RObj toi c ->
+       exists p, prio_of_toi s toi = Some p /\ p <= q_prio q
+                 /\ forall q', In q' (squeues s) -> q_prio q' < p -> queue_ready s now q' = false.
+Proof. exact prompt_read. Qed.
+Print Assumptions C14_prompt_read_state.
+
+Theorem C14_prompt_invariant_init : forall full dur car sid queues,
+  StronglySorted N.lt (map fst queues) -> cfg_ok dur car = true -> PInv (init_st full dur car sid queues).
+Proof. exact PInv_init. Qed.
+Print Assumptions C14_prompt_invariant_init.
+
+Theorem C14_prompt_invariant_step : forall fdt_npk fdt_ok divf s o,
+  PInv s -> op_fresh s o = true -> op_nz o = true -> op_car o = true -> PInv (snd (step fdt_npk fdt_ok divf s o)).
+Proof. exact PInv_step. Qed.
+Print Assumptions C14_prompt_invariant_step.
+
+(* the zero-tick invariant along a history whose reads never go back *)
+Theorem C14_zero_tick_invariant : forall fdt_npk fdt_ok divf ops T s,
+  divf_zero divf -> ZInv T s -> mono_ops T ops ->
+  ZInv (last_time T ops) (snd (run_ops fdt_npk fdt_ok divf s ops)).
+Proof. exact ZInv_run. Qed.
+Print Assumptions C14_zero_tick_invariant.
+
+(* ---------- examples: non-vacuity, and why each premise is there ---------- *)
+Definition c14p_npk : N -> nat := fun _ => 1%nat.
+Definition c14p_ok : N -> bool := fun _ => true.
+Definition c14p_init (full : bool) : st := init_st full 3600000000000 (CDelay 1000000000) 1 [(0, 2%nat); (3, 1%nat)].
+Definition c14p_state (dvf : Z -> N -> option Z) (full : bool) (ops : list op) : st :=
+  snd (run_ops c14p_npk c14p_ok dvf (c14p_init full) ops).
+Definition c14p_outs (dvf : Z -> N -> option Z) (full : bool) (ops : list op) : list opout :=
+  fst (run_ops c14p_npk c14p_ok dvf (c14p_init full) ops).
+Definition c14p_obj : odesc := mk_odesc 1 0 2 2 1 CNone TNone false None [].
+
+Example C14_prompt_premises_hold :
+  reach_ok c14p_npk c14p_ok c14_div true 3600000000000 (CDelay 1000000000) 1 [(0, 2%nat); (3, 1%nat)]
+           [OpAdd c14p_obj None true; OpPublish 0; OpRead 0]
+  /\ divf_total c14_div /\ divf_zero c14_div.
+Proof. exact ex_premises. Qed.
+
+(* the FDT has gone out, queue 0 is ready, the FDT session is idle, FullFDT: the read returns the
+   object's packet; MUs = 2 packets owed *)
+Example C14_prompt_example :
+  let s := c14p_state c14_div true [OpAdd c14p_obj None true; OpPublish 0; OpRead 0] in
+  (map (queue_ready s 0) (squeues s), fst (run_fdt_session c14p_npk c14p_ok c14_div 0 s), full_fdt s,
+   fst (sender_read c14p_npk c14p_ok c14_div 0 s), MUs c14p_npk 0 s)
+  = ([true; false], RNothing, true, RObj 1 false, 2%nat).
+Proof. vm_compute. reflexivity. Qed.
+
+(* Duration::div_f64 undefined (divf_total dropped): the ready queue makes the read panic *)
+Example C14_prompt_divf_total_needed_refuted :
+  let dnone : Z -> N -> option Z := fun _ _ => None in
+  let s := c14p_state dnone true [OpAdd (mk_odesc 1 0 2 2 1 CNone (TDuration 1000) false None []) None true; OpPublish 0; OpRead 0] in
+  (map (queue_ready s 0) (squeues s), is_pkt (fst (sender_read c14p_npk c14p_ok dnone 0 s))) = ([true; false], false).
+Proof. vm_compute. reflexivity. Qed.
+
+(* (P2) without "FullFDT": in ObjectsBeingTransferred mode starting the transfer publishes an FDT
+   instance first; the read returns that FDT packet, the object's packet comes with the next read *)
+Example C14_prompt_object_full_mode_needed_refuted :
+  let s := c14p_state c14_div false [OpAdd c14p_obj None true; OpRead 10] in
+  (map (queue_ready s 10) (squeues s), fst (run_fdt_session c14p_npk c14p_ok c14_div 10 s), full_fdt s,
+   fst (sender_read c14p_npk c14p_ok c14_div 10 s))
+  = ([true; false], RNothing, false, RFdt 2 false).
+Proof. vm_compute. reflexivity. Qed.
+
+(* (P2) without "FDT session idle": the pending FDT instance goes first *)
+Example C14_prompt_object_fdt_idle_needed_refuted :
+  let s := c14p_state c14_div true [OpAdd c14p_obj None true; OpPublish 0] in
+  (map (queue_ready s 0) (squeues s), fst (run_fdt_session c14p_npk c14p_ok c14_div 0 s),
+   fst (sender_read c14p_npk c14p_ok c14_div 0 s))
+  = ([true; false], RFdt 1 false, RFdt 1 false).
+Proof. vm_compute. reflexivity. Qed.
+
+(* round robin between the two slots of queue 0, then the lower priority *)
+Example C14_prompt_example_round_robin :
+  c14p_outs c14_div true [OpAdd (mk_odesc 7 3 1 1 1 CNone TNone false None []) None true; OpAdd c14p_obj None true;
+                          OpAdd (mk_odesc 2 0 2 2 1 CNone TNone false None []) None true; OpPublish 0;
+                          OpRead 0; OpRead 0; OpRead 0; OpRead 0; OpRead 0; OpRead 0; OpRead 0]
+  = [OutAdd true; OutAdd true; OutAdd true; OutPublish true; OutRead (RFdt 1 false);
+     OutRead (RObj 1 false); OutRead (RObj 2 false); OutRead (RObj 1 true); OutRead (RObj 2 true);
+     OutRead (RObj 7 true); OutRead RNothing].
+Proof. vm_compute. reflexivity. Qed.
+
+(* degenerate inputs: (a) an empty object is one packet with the close flag, then the object is gone *)
+Example C14_degenerate_empty_object :
+  c14p_outs c14_div true [OpAdd (mk_odesc 1 0 0 0 1 CNone TNone false None []) None true; OpPublish 0;
+                          OpRead 0; OpRead 0; OpRead 0]
+  = [OutAdd true; OutPublish true; OutRead (RFdt 1 false); OutRead (RObj 1 true); OutRead RNothing].
+Proof. vm_compute. reflexivity. Qed.
+
+(* (b) a deadline in the past: all the packets at the first instant *)
+Example C14_degenerate_deadline_in_the_past :
+  c14p_outs c14_div true [OpAdd (mk_odesc 1 0 3 3 1 CNone (TTime 5) false None []) None true; OpPublish 10;
+                          OpRead 10; OpRead 10; OpRead 10; OpRead 10; OpRead 10]
+  = [OutAdd true; OutPublish true; OutRead (RFdt 1 false); OutRead (RObj 1 false); OutRead (RObj 1 false);
+     OutRead (RObj 1 true); OutRead RNothing].
+Proof. vm_compute. reflexivity. Qed.
+
+(* (c) a zero target duration: the same *)
+Example C14_degenerate_zero_duration :
+  c14p_outs c14_div true [OpAdd (mk_odesc 1 0 3 3 1 CNone (TDuration 0) false None []) None true; OpPublish 10;
+                          OpRead 10; OpRead 10; OpRead 10; OpRead 10; OpRead 10]
+  = [OutAdd true; OutPublish true; OutRead (RFdt 1 false); OutRead (RObj 1 false); OutRead (RObj 1 false);
+     OutRead (RObj 1 true); OutRead RNothing].
+Proof. vm_compute. reflexivity. Qed.
+
+(* (c) a zero carousel delay: one transfer per instant (the gap is strict), never a stall *)
+Example C14_degenerate_zero_carousel_delay :
+  c14p_outs c14_div true [OpAdd (mk_odesc 1 0 1 1 1 (CDelay 0) TNone false None []) None true; OpPublish 10;
+                          OpRead 10; OpRead 10; OpRead 10; OpRead 11; OpRead 11; OpRead 12]
+  = [OutAdd true; OutPublish true; OutRead (RFdt 1 false); OutRead (RObj 1 false); OutRead RNothing;
+     OutRead (RObj 1 false); OutRead RNothing; OutRead (RObj 1 false)].
+Proof. vm_compute. reflexivity. Qed.
+
+(* (P6)-(P8) without [divf_zero]: were div_f64 of a zero duration positive (5 here) the zero-duration
+   object would be held back although its target says "now" *)
+Example C14_zero_tick_divf_zero_needed_refuted :
+  let d5 : Z -> N -> option Z := fun d n => if (d =? 0)%Z then Some 5%Z else Some (d / Z.of_N n)%Z in
+  c14p_outs d5 true [OpAdd (mk_odesc 1 0 3 3 1 CNone (TDuration 0) false None []) None true; OpPublish 10;
+                     OpRead 10; OpRead 10; OpRead 10; OpRead 15]
+  = [OutAdd true; OutPublish true; OutRead (RFdt 1 false); OutRead (RObj 1 false); OutRead RNothing;
+     OutRead (RObj 1 false)].
+Proof. vm_compute. reflexivity. Qed.
+
+(* (P6)-(P8) without monotone reads: a clock that goes back holds the zero-duration object back *)
+Example C14_zero_tick_monotone_reads_needed_refuted :
+  c14p_outs c14_div true [OpAdd (mk_odesc 1 0 3 3 1 CNone (TDuration 0) false None []) None true; OpPublish 10;
+                          OpRead 10; OpRead 10; OpRead 5]
+  = [OutAdd true; OutPublish true; OutRead (RFdt 1 false); OutRead (RObj 1 false); OutRead RNothing].
+Proof. vm_compute. reflexivity. Qed.
+(* ===== end block: C14Prompt ===== *)
